@@ -24,6 +24,8 @@ import (
 
 func init() {
 	components["e2e"] = e2eComponent
+	components["e2ebig"] = e2eBigComponent
+	components["e2eslow"] = e2eSlowComponent
 }
 
 const labNet = uint32(10<<24 | 0<<16 | 0<<8 | 0) // 10.0.0.0/24 lives on veth0
@@ -45,6 +47,37 @@ type e2eCase struct {
 	stdin  bool
 	extra  []string
 	listen bool // application scan on loopback
+	tun    bool // on the tun device (no MAC address: sx puts itself in vpn mode, frames are bare IP datagrams)
+	oneCPU bool // the process sees one CPU (runtime.NumCPU() == 1)
+	split  int  // 0: draw {-p | --ports-file}; 1: -p; 2: --ports-file; 3: the list split between -p and --ports-file
+	quiet  bool // no reply flood during a multi-chunk run
+}
+
+// rawView decodes one bare IPv4 datagram captured on the tun device into the gen view `4:<dst>,<port>,-,-`
+func rawView(kind string, b []byte) (string, bool) {
+	if len(b) < 20 || b[0]>>4 != 4 {
+		return "", false
+	}
+	ihl := int(b[0]&0xf) * 4
+	dst := binary.BigEndian.Uint32(b[16:20])
+	switch kind {
+	case "pkt-icmp":
+		if b[9] != 1 {
+			return "", false
+		}
+		return fmt.Sprintf("4:%d,0,-,-", dst), true
+	case "pkt-tcp":
+		if b[9] != 6 || len(b) < ihl+4 {
+			return "", false
+		}
+	case "pkt-udp":
+		if b[9] != 17 || len(b) < ihl+4 {
+			return "", false
+		}
+	default:
+		return "", false
+	}
+	return fmt.Sprintf("4:%d,%d,-,-", dst, binary.BigEndian.Uint16(b[ihl+2:ihl+4])), true
 }
 
 // frameView decodes one captured frame into the gen view `4:<dst>,<port>,<dstmac>,-`
@@ -85,14 +118,27 @@ func frameView(kind string, b []byte) (string, bool) {
 	return fmt.Sprintf("4:%d,%d,%s,-", dst, binary.BigEndian.Uint16(b[14+ihl+2:14+ihl+4]), mac), true
 }
 
-func e2eComponent(r *hx.Run) {
-	if !enterNetlab() {
-		return
+// e2eEnv: the namespace, the wire(s) and the case generators shared by the end-to-end components of this file
+type e2eEnv struct {
+	r    *hx.Run
+	lab  *netlab
+	tun  *tunDev // nil unless asked for
+	dir  string
+	n    int            // cases run so far
+	turn map[string]int // per command: whose turn it is to run on one CPU
+}
+
+func newE2EEnv(r *hx.Run, withTun bool) *e2eEnv {
+	e := &e2eEnv{r: r, lab: newNetlab(), turn: map[string]int{}}
+	if withTun {
+		tun, err := newTun("tun0", "10.1.0.1/24")
+		if err != nil {
+			fmt.Fprintf(os.Stderr, "e2e: no tun device (%v): vpn-mode runs cannot be made\n", err)
+			os.Exit(4)
+		}
+		e.tun = tun
+		time.Sleep(50 * time.Millisecond)
 	}
-	r.Rule = "case = one complete run of the real sx binary in a private network namespace: (sub-command, target spec {subnet | pairs file | address file x ports | stdin}, port list incl. > 200 ranges (several engine runs), exclusion file, ARP cache file + gateway MAC); observed = multiset of (destination, port, destination MAC) of the frames that arrive on the far end of the veth pair, or of connections/requests that arrive at loopback listeners; compared with the model over all chunks and with the Spec reference; non-trivial class = (sub-command, source kind, stdin, exclusion, chunks>1)"
-	lab := newNetlab()
-	defer lab.close()
-	rng := r.Rng
 	work := os.Getenv("VERIF_WORK")
 	if work == "" {
 		work = os.TempDir()
@@ -101,54 +147,113 @@ func e2eComponent(r *hx.Run) {
 	if err != nil {
 		panic(err)
 	}
-	defer os.RemoveAll(dir)
+	e.dir = dir
+	return e
+}
 
-	randPorts := func(many bool) string {
-		k := 1 + rng.Intn(3)
-		if many {
-			k = 601 + rng.Intn(3) // four engine runs
-		}
-		var ps []string
-		for i := 0; i < k; i++ {
-			lo := 1 + rng.Intn(65000)
-			hi := lo
-			if !many && rng.Intn(3) == 0 {
-				hi = lo + rng.Intn(3)
-			}
-			if i > 0 && rng.Intn(5) == 0 { // duplicate / overlapping range
-				ps = append(ps, ps[i-1])
-				continue
-			}
-			ps = append(ps, fmt.Sprintf("%d-%d", lo, hi))
-		}
-		return strings.Join(ps, ",")
+func (e *e2eEnv) close() {
+	os.RemoveAll(e.dir)
+	if e.tun != nil {
+		e.tun.close()
 	}
-	randSubnet := func() (uint32, int) {
-		ones := 32 - rng.Intn(5)
-		base := labNet | uint32(16+rng.Intn(200))
-		base &= ^uint32(0) << uint(32-ones)
-		return base, ones
+	e.lab.close()
+}
+
+// oneCPU: every second run of a command is made under a one-CPU affinity (which half is drawn per command)
+func (e *e2eEnv) oneCPU(sub []string) bool {
+	k := strings.Join(sub, " ")
+	if _, ok := e.turn[k]; !ok {
+		e.turn[k] = e.r.Rng.Intn(2)
 	}
-	subnetAddrs := func(base uint32, ones int) []uint32 {
-		var a []uint32
-		for i := uint32(0); i < 1<<uint(32-ones); i++ {
-			a = append(a, base+i)
+	e.turn[k]++
+	return e.turn[k]%2 == 0
+}
+
+func (e *e2eEnv) randPorts(many bool) string {
+	rng := e.r.Rng
+	k := 1 + rng.Intn(3)
+	if many {
+		k = 601 + rng.Intn(3) // four engine runs
+	}
+	var ps []string
+	for i := 0; i < k; i++ {
+		lo := 1 + rng.Intn(65000)
+		hi := lo
+		if !many && rng.Intn(3) == 0 {
+			hi = lo + rng.Intn(3)
 		}
-		return a
-	}
-	randExcl := func(addrs []uint32) string {
-		switch rng.Intn(3) {
-		case 0:
-			return "none"
-		case 1:
-			return fmt.Sprintf("%d/32", addrs[rng.Intn(len(addrs))])
+		if i > 0 && rng.Intn(5) == 0 { // duplicate / overlapping range
+			ps = append(ps, ps[i-1])
+			continue
 		}
-		a := addrs[rng.Intn(len(addrs))] &^ 1
-		return fmt.Sprintf("%d/31,%d/32", a, addrs[rng.Intn(len(addrs))])
+		ps = append(ps, fmt.Sprintf("%d-%d", lo, hi))
 	}
+	return strings.Join(ps, ",")
+}
+
+func (e *e2eEnv) randSubnetOf(net uint32) (uint32, int) {
+	rng := e.r.Rng
+	ones := 32 - rng.Intn(5)
+	base := net | uint32(16+rng.Intn(200))
+	base &= ^uint32(0) << uint(32-ones)
+	return base, ones
+}
+
+func (e *e2eEnv) randSubnet() (uint32, int) { return e.randSubnetOf(labNet) }
+
+func subnetAddrs(base uint32, ones int) []uint32 {
+	var a []uint32
+	for i := uint32(0); i < 1<<uint(32-ones); i++ {
+		a = append(a, base+i)
+	}
+	return a
+}
+
+// randExcl never excludes every target: a run that may send nothing shows nothing
+func (e *e2eEnv) randExcl(addrs []uint32) string {
+	rng := e.r.Rng
+	k := rng.Intn(3)
+	if len(addrs) < 2 {
+		return "none"
+	}
+	if len(addrs) < 4 && k == 2 {
+		k = 1
+	}
+	switch k {
+	case 0:
+		return "none"
+	case 1:
+		return fmt.Sprintf("%d/32", addrs[rng.Intn(len(addrs))])
+	}
+	a := addrs[rng.Intn(len(addrs))] &^ 1
+	return fmt.Sprintf("%d/31,%d/32", a, addrs[rng.Intn(len(addrs))])
+}
+
+// someExcl: an exclusion that is never "none"
+func (e *e2eEnv) someExcl(addrs []uint32) string {
+	for len(addrs) >= 2 {
+		if x := e.randExcl(addrs); x != "none" {
+			return x
+		}
+	}
+	return "none"
+}
+
+func e2eComponent(r *hx.Run) {
+	if !enterNetlab() {
+		return
+	}
+	r.Rule = "case = one complete run of the real sx binary in a private network namespace: (sub-command, target spec {subnet | pairs file | address file x ports | stdin}, port list incl. > 200 ranges (several engine runs) given by -p, by --ports-file or split between the two, exclusion file, ARP cache file + gateway MAC, link {veth pair: Ethernet | tun device: no MAC address, vpn mode}, CPUs visible to the process {all | one}); observed = multiset of (destination, port, destination MAC) of the frames that arrive on the far end of the veth pair / at the tun device, or of connections/requests that arrive at loopback listeners; compared with the model over all chunks and with the Spec reference; non-trivial class = (sub-command, source kind, stdin, exclusion, chunks>1, ports split, tun, one CPU)"
+	e := newE2EEnv(r, true)
+	defer e.close()
+	rng := r.Rng
 
 	var cases []e2eCase
-	tcpSubs := [][]string{{"tcp", "syn"}, {"tcp", "fin"}, {"tcp", "null"}, {"tcp", "xmas"}, {"tcp", "--flags", "syn,ack"}}
+	add := func(c e2eCase) {
+		c.oneCPU = e.oneCPU(c.sub)
+		cases = append(cases, c)
+	}
+	tcpSubs := [][]string{{"tcp", "syn"}, {"tcp", "fin"}, {"tcp", "null"}, {"tcp", "xmas"}, {"tcp", "--flags", "syn,ack"}, {"tcp"}}
 	nPer := 2
 	if r.Tier == "thorough" {
 		nPer = 12
@@ -156,10 +261,10 @@ func e2eComponent(r *hx.Run) {
 	for it := 0; it < nPer; it++ {
 		// subnet x ports for every tcp flavour and udp
 		for _, sub := range append(append([][]string{}, tcpSubs...), []string{"udp"}) {
-			if r.Tier != "thorough" && it > 0 && sub[0] == "tcp" && sub[1] != "syn" {
+			if r.Tier != "thorough" && it > 0 && sub[0] == "tcp" && !(len(sub) > 1 && sub[1] == "syn") {
 				continue
 			}
-			base, ones := randSubnet()
+			base, ones := e.randSubnet()
 			many := it == 0 && (len(sub) > 1 && sub[1] == "syn")
 			if many && ones < 31 { // several engine runs (> 200 ranges) on one or two hosts
 				ones = 31 + rng.Intn(2)
@@ -170,20 +275,22 @@ func e2eComponent(r *hx.Run) {
 			if sub[0] == "udp" {
 				kind = "pkt-udp"
 			}
-			cases = append(cases, e2eCase{kind: kind, sub: sub, src: fmt.Sprintf("net:%d/%d", base, ones),
-				ports: randPorts(many), excl: randExcl(addrs)})
+			add(e2eCase{kind: kind, sub: sub, src: fmt.Sprintf("net:%d/%d", base, ones),
+				ports: e.randPorts(many), excl: e.randExcl(addrs)})
 		}
 		// pairs file; address file x ports; the same on stdin
 		for _, stdin := range []bool{false, true} {
-			base, ones := randSubnet()
+			base, ones := e.randSubnet()
 			addrs := subnetAddrs(base, ones)
 			var pairs, only []string
-			for _, a := range addrs {
-				if rng.Intn(4) == 0 {
+			var present []uint32
+			for i, a := range addrs {
+				if rng.Intn(4) == 0 && !(i == len(addrs)-1 && len(only) < 2) {
 					continue
 				}
 				pairs = append(pairs, fmt.Sprintf("E,4,%d,%d", a, 1+rng.Intn(65535)))
 				only = append(only, fmt.Sprintf("E,4,%d,0", a))
+				present = append(present, a)
 				if rng.Intn(5) == 0 { // a repeated line is probed twice
 					pairs = append(pairs, pairs[len(pairs)-1])
 				}
@@ -200,25 +307,71 @@ func e2eComponent(r *hx.Run) {
 			if rng.Intn(2) == 0 {
 				udpOrTcp, k = tcpSubs[rng.Intn(len(tcpSubs))], "pkt-tcp"
 			}
-			cases = append(cases, e2eCase{kind: k, sub: udpOrTcp, src: "file:" + f + ":" + strings.Join(only, ";"),
-				ports: randPorts(false), excl: randExcl(addrs), stdin: stdin})
+			add(e2eCase{kind: k, sub: udpOrTcp, src: "file:" + f + ":" + strings.Join(only, ";"),
+				ports: e.randPorts(false), excl: e.randExcl(present), stdin: stdin})
 			if stdin {
 				continue
 			}
-			cases = append(cases, e2eCase{kind: "pkt-tcp", sub: []string{"tcp", "syn"}, src: "file:0:" + strings.Join(pairs, ";"),
-				ports: "-", excl: randExcl(addrs)})
-			cases = append(cases, e2eCase{kind: "pkt-icmp", sub: []string{"icmp"}, src: "file:0:" + strings.Join(only, ";"),
-				ports: "-", excl: randExcl(addrs)})
+			add(e2eCase{kind: "pkt-tcp", sub: []string{"tcp", "syn"}, src: "file:0:" + strings.Join(pairs, ";"),
+				ports: "-", excl: e.randExcl(present)})
+			add(e2eCase{kind: "pkt-icmp", sub: []string{"icmp"}, src: "file:0:" + strings.Join(only, ";"),
+				ports: "-", excl: e.randExcl(present)})
 		}
 		// port-less scans on a subnet
 		for _, k := range []string{"pkt-icmp", "pkt-arp"} {
-			base, ones := randSubnet()
+			base, ones := e.randSubnet()
 			addrs := subnetAddrs(base, ones)
 			sub := []string{"icmp"}
 			if k == "pkt-arp" {
 				sub = []string{"arp"}
 			}
-			cases = append(cases, e2eCase{kind: k, sub: sub, src: fmt.Sprintf("net:%d/%d", base, ones), ports: "-", excl: randExcl(addrs)})
+			add(e2eCase{kind: k, sub: sub, src: fmt.Sprintf("net:%d/%d", base, ones), ports: "-", excl: e.randExcl(addrs)})
+		}
+		// the port list split between -p and --ports-file: one packet command and one generic command per round
+		{
+			sub, kind := []string{"udp"}, "pkt-udp"
+			if rng.Intn(2) == 0 {
+				sub, kind = tcpSubs[rng.Intn(len(tcpSubs))], "pkt-tcp"
+			}
+			base, ones := e.randSubnet()
+			ports := e.randPorts(false)
+			for strings.Count(ports, ",") == 0 {
+				ports = e.randPorts(false)
+			}
+			add(e2eCase{kind: kind, sub: sub, src: fmt.Sprintf("net:%d/%d", base, ones), ports: ports,
+				excl: e.randExcl(subnetAddrs(base, ones)), split: 3})
+		}
+		// the tun device (an interface without a MAC address: vpn mode): subnet, and an address file with -i;
+		// always with an exclusion (it is read on another path than on Ethernet), never with an ARP cache
+		{
+			tunSubs := [][]string{tcpSubs[rng.Intn(len(tcpSubs))], {"udp"}, {"icmp"}}
+			if r.Tier != "thorough" {
+				// two of the three per round, each of them within two rounds
+				drop := (it + int(r.Seed)) % 3
+				tunSubs = append(append([][]string{}, tunSubs[:drop]...), tunSubs[drop+1:]...)
+			}
+			for _, sub := range tunSubs {
+				base, ones := e.randSubnetOf(tunNet)
+				if ones == 32 {
+					ones = 30 + rng.Intn(2)
+					base &= ^uint32(0) << uint(32-ones)
+				}
+				addrs := subnetAddrs(base, ones)
+				kind, ports := "pkt-"+sub[0], e.randPorts(false)
+				if sub[0] == "icmp" {
+					ports = "-"
+				}
+				c := e2eCase{kind: kind, sub: sub, src: fmt.Sprintf("net:%d/%d", base, ones), ports: ports, excl: e.someExcl(addrs), tun: true}
+				if rng.Intn(3) == 0 {
+					var only []string
+					for _, a := range addrs {
+						only = append(only, fmt.Sprintf("E,4,%d,0", a))
+					}
+					c.src = "file:0:" + strings.Join(only, ";")
+					c.extra = []string{"-i", "tun0"}
+				}
+				add(c)
+			}
 		}
 		// application scans on loopback
 		for _, sub := range []string{"socks", "elastic", "docker"} {
@@ -226,7 +379,12 @@ func e2eComponent(r *hx.Run) {
 			base := (uint32(127<<24) | uint32(1+rng.Intn(200))<<8 | uint32(rng.Intn(250))) & (^uint32(0) << uint(32-ones))
 			addrs := subnetAddrs(base, ones)
 			var ps []string
-			for i := 0; i < 1+rng.Intn(2); i++ {
+			nr := 1 + rng.Intn(2)
+			split := 0
+			if (it+len(sub))%3 == 0 { // each generic command in turn gets its list split between -p and --ports-file
+				nr, split = 2, 3
+			}
+			for i := 0; i < nr; i++ {
 				lo := 20000 + rng.Intn(20000)
 				ps = append(ps, fmt.Sprintf("%d-%d", lo, lo+rng.Intn(2)))
 			}
@@ -245,8 +403,8 @@ func e2eComponent(r *hx.Run) {
 				}
 				src = "file:" + f + ":" + strings.Join(only, ";")
 			}
-			cases = append(cases, e2eCase{kind: "req-gen", sub: []string{sub}, src: src,
-				ports: strings.Join(ps, ","), excl: randExcl(addrs), listen: true, stdin: st})
+			add(e2eCase{kind: "req-gen", sub: []string{sub}, src: src,
+				ports: strings.Join(ps, ","), excl: e.randExcl(addrs), listen: true, stdin: st, split: split})
 		}
 	}
 
@@ -255,14 +413,138 @@ func e2eComponent(r *hx.Run) {
 		for i := 0; i < 6; i++ {
 			base := labNet | uint32(20+i)
 			cases = append(cases, e2eCase{kind: "pkt-tcp", sub: []string{"tcp", "syn"}, src: fmt.Sprintf("net:%d/32", base),
-				ports: randPorts(true), excl: "none"})
+				ports: e.randPorts(true), excl: "none"})
 		}
 	}
-	for ci, c := range cases {
-		cdir := filepath.Join(dir, fmt.Sprint(ci))
+	for _, c := range cases {
+		e.run(c)
+	}
+}
+
+// e2ebig — wide AND long: more than 200 port ranges (several engine runs over ONE generator) on a subnet of 128 or
+// more addresses, so that every engine run makes hundreds of complete address passes and the passes of a later
+// run start from whatever state the earlier runs left behind (C04: every pass is a permutation of the subnet,
+// whatever happened before it; C01: over all chunks).  Tens of thousands of frames per run.
+func e2eBigComponent(r *hx.Run) {
+	if !enterNetlab() {
+		return
+	}
+	r.Rule = "case = one run of the real sx binary (tcp flavour or udp) on a /25 or /24 with 201..405 port ranges (2-3 engine runs, 26 000..100 000 probes), optional exclusions, on the veth pair; observed = sorted multiset of (destination, port, destination MAC) of the frames on the wire; compared with the model over all chunks and with the Spec reference; non-trivial class = (sub-command, subnet size, number of chunks, exclusion)"
+	e := newE2EEnv(r, false)
+	defer e.close()
+	rng := r.Rng
+	n := 1
+	if r.Tier == "thorough" {
+		n = 5
+	}
+	subs := [][]string{{"tcp", "syn"}, {"udp"}, {"tcp", "fin"}, {"tcp"}, {"tcp", "--flags", "ack"}}
+	for i := 0; i < n; i++ {
+		sub := subs[rng.Intn(len(subs))]
+		ones := 25
+		base := labNet | uint32(rng.Intn(2))<<7
+		nr := 201 + rng.Intn(5)
+		if r.Tier == "thorough" && i%2 == 1 {
+			if rng.Intn(2) == 0 {
+				ones, base = 24, labNet
+			} else {
+				nr = 401 + rng.Intn(5)
+			}
+		}
+		var ps []string
+		lo := 1000 + rng.Intn(30000)
+		for k := 0; k < nr; k++ {
+			lo += 1 + rng.Intn(3)
+			ps = append(ps, fmt.Sprintf("%d-%d", lo, lo))
+		}
+		kind := "pkt-tcp"
+		if sub[0] == "udp" {
+			kind = "pkt-udp"
+		}
+		c := e2eCase{kind: kind, sub: sub, src: fmt.Sprintf("net:%d/%d", base, ones), ports: strings.Join(ps, ","),
+			excl: e.randExcl(subnetAddrs(base, ones)), quiet: true}
+		c.oneCPU = e.oneCPU(c.sub)
+		e.run(c)
+	}
+}
+
+// e2eslow — a rate limit below one packet per second on a target of two or three probes: every probe still
+// leaves (C07: a finished, uncancelled run has written everything), whatever is derived from the rate.
+func e2eSlowComponent(r *hx.Run) {
+	if !enterNetlab() {
+		return
+	}
+	r.Rule = "case = one run of the real sx binary (tcp syn, udp, icmp, arp; veth pair or tun device) with --rate N/W where W/N is between 1.05 s and 1.3 s per packet, on a target of 2-3 probes; observed = sorted multiset of (destination, port, destination MAC) of the frames on the wire; compared with the model and with the Spec reference; non-trivial class = (sub-command, link, rate form)"
+	e := newE2EEnv(r, true)
+	defer e.close()
+	rng := r.Rng
+	type sc struct {
+		kind string
+		sub  []string
+	}
+	all := []sc{{"pkt-udp", []string{"udp"}}, {"pkt-tcp", []string{"tcp", "syn"}}, {"pkt-icmp", []string{"icmp"}}, {"pkt-arp", []string{"arp"}}}
+	rounds := 1
+	if r.Tier == "thorough" {
+		rounds = 4
+	}
+	for it := 0; it < rounds; it++ {
+		for _, s := range all {
+			// the same budget per packet written three ways: N/Ws with W > N seconds, 1/<ms>, <per minute>/m
+			var rate string
+			ms := 1050 + rng.Intn(200)
+			switch rng.Intn(3) {
+			case 0:
+				rate = fmt.Sprintf("1/%dms", ms)
+			case 1:
+				rate = fmt.Sprintf("%d/m", 60000/ms)
+			default:
+				rate = fmt.Sprintf("10/%ds", 10*ms/1000+1)
+			}
+			c := e2eCase{kind: s.kind, sub: s.sub, ports: "-", excl: "none", extra: []string{"--rate", rate}}
+			c.tun = s.kind != "pkt-arp" && rng.Intn(3) == 0
+			net := labNet
+			if c.tun {
+				net = tunNet
+			}
+			base := (net | uint32(16+rng.Intn(200))) &^ 1
+			probes := 2
+			if r.Tier == "thorough" {
+				probes += rng.Intn(2)
+			}
+			switch s.kind {
+			case "pkt-icmp", "pkt-arp":
+				if probes == 3 { // three addresses of a /30, the fourth excluded
+					base &^= 3
+					c.src, c.excl = fmt.Sprintf("net:%d/30", base), fmt.Sprintf("%d/32", base+uint32(rng.Intn(4)))
+				} else {
+					c.src = fmt.Sprintf("net:%d/31", base)
+				}
+			default:
+				p := 1 + rng.Intn(65000)
+				c.src, c.ports = fmt.Sprintf("net:%d/32", base), fmt.Sprintf("%d-%d", p, p+probes-1)
+			}
+			c.oneCPU = e.oneCPU(c.sub)
+			e.run(c)
+		}
+	}
+}
+
+// run makes one case: builds the command line and its files, runs the real binary, emits the `gen` line
+func (e *e2eEnv) run(c e2eCase) {
+	r, rng, lab := e.r, e.r.Rng, e.lab
+	ci := e.n
+	e.n++
+	if os.Getenv("E2E_DEBUG") != "" {
+		t0 := time.Now()
+		defer func() {
+			fmt.Fprintf(os.Stderr, "e2e case %d %v %s tun=%v cpu1=%v: %v\n", ci, c.sub, c.src[:3], c.tun, c.oneCPU, time.Since(t0))
+		}()
+	}
+	{
+		cdir := filepath.Join(e.dir, fmt.Sprint(ci))
 		os.MkdirAll(cdir, 0o755)
 		args := append([]string{}, c.sub...)
 		args = append(args, "--json", "--exit-delay", "40ms")
+		args = append(args, c.extra...)
 		var stdin []byte
 		var targets []uint32 // every address named by the spec (for the ARP cache / listeners)
 		switch {
@@ -294,23 +576,28 @@ func e2eComponent(r *hx.Run) {
 			}
 		}
 		if c.ports != "-" {
-			if rng.Intn(2) == 0 || strings.Count(c.ports, ",") > 50 {
-				// ports file, one range per line (with a comment and a blank line)
-				p := filepath.Join(cdir, "ports.txt")
-				var sb strings.Builder
-				for _, pr := range strings.Split(c.ports, ",") {
-					lh := strings.Split(pr, "-")
-					if lh[0] == lh[1] {
-						sb.WriteString(lh[0] + "\n")
-					} else {
-						sb.WriteString(pr + "\n")
-					}
-				}
-				os.WriteFile(p, []byte(sb.String()), 0o644)
-				args = append(args, "--ports-file", p)
-			} else {
+			all := strings.Split(c.ports, ",")
+			how := c.split
+			if how == 0 {
+				how = 1 + rng.Intn(2)
+			}
+			if len(all) > 50 && how == 1 {
+				how = 2
+			}
+			if how == 3 && len(all) < 2 {
+				how = 1
+			}
+			// -p takes the first nArg ranges, the file the rest (sx appends the file's ranges to those of -p)
+			nArg := 0
+			switch how {
+			case 1:
+				nArg = len(all)
+			case 3:
+				nArg = 1 + rng.Intn(len(all)-1)
+			}
+			if nArg > 0 {
 				var ps []string
-				for _, pr := range strings.Split(c.ports, ",") {
+				for _, pr := range all[:nArg] {
 					lh := strings.Split(pr, "-")
 					if lh[0] == lh[1] && rng.Intn(2) == 0 {
 						ps = append(ps, lh[0])
@@ -320,15 +607,34 @@ func e2eComponent(r *hx.Run) {
 				}
 				args = append(args, "-p", strings.Join(ps, ","))
 			}
+			if nArg < len(all) {
+				// ports file, one range per line (with a comment and a blank line)
+				p := filepath.Join(cdir, "ports.txt")
+				var sb strings.Builder
+				sb.WriteString("# ports\n\n")
+				for _, pr := range all[nArg:] {
+					lh := strings.Split(pr, "-")
+					if lh[0] == lh[1] {
+						sb.WriteString(lh[0] + "\n")
+					} else {
+						sb.WriteString(pr + "\n")
+					}
+				}
+				os.WriteFile(p, []byte(sb.String()), 0o644)
+				args = append(args, "--ports-file", p)
+			}
+			if how == 3 {
+				r.Count("ports:split")
+			}
 		}
 		if c.excl != "none" {
 			p := filepath.Join(cdir, "exclude.txt")
 			var sb strings.Builder
 			sb.WriteString("# excluded\n\n")
-			for _, e := range strings.Split(c.excl, ",") {
+			for _, x := range strings.Split(c.excl, ",") {
 				var b uint32
 				var o int
-				fmt.Sscanf(e, "%d/%d", &b, &o)
+				fmt.Sscanf(x, "%d/%d", &b, &o)
 				if o == 32 {
 					sb.WriteString(v4Text(b) + "\n")
 				} else {
@@ -339,7 +645,7 @@ func e2eComponent(r *hx.Run) {
 			args = append(args, "--exclude", p)
 		}
 		cache, gw := "none", "-"
-		if c.kind == "pkt-tcp" || c.kind == "pkt-udp" || c.kind == "pkt-icmp" {
+		if !c.tun && (c.kind == "pkt-tcp" || c.kind == "pkt-udp" || c.kind == "pkt-icmp") {
 			// ARP cache file: most targets have their own entry, the rest go to the gateway
 			gwMAC := uint64(0x02000000fe00)
 			var entries []string
@@ -368,19 +674,28 @@ func e2eComponent(r *hx.Run) {
 		} else {
 			lab.settle(30 * time.Millisecond)
 			lab.take()
+			if c.tun {
+				e.tun.take()
+			}
 			var res sxRun
-			flood := c.kind == "pkt-tcp" && len(c.sub) > 1 && c.sub[1] == "syn" && strings.Count(c.ports, ",") >= 200
+			flood := !c.tun && c.kind == "pkt-tcp" && len(c.sub) > 1 && c.sub[1] == "syn" && strings.Count(c.ports, ",") >= 200 && !c.quiet
 			if flood {
 				// several engine runs (port chunks) WHILE the target keeps answering: replies to the first probe
 				// are injected all the way through the chunk boundaries (a scanned host with an open port does
 				// this).  Every port of every chunk must still be probed exactly once, and sx must not crash.
-				res = runSXWithReplies(lab, stdin, args)
+				res = runSXWithReplies(lab, c.oneCPU, stdin, args)
 				r.Count("reply-flood")
 			} else {
-				res = runSX(stdin, 60*time.Second, args...)
+				res = runSXOn(c.oneCPU, stdin, 60*time.Second, args...)
 			}
-			lab.settle(60 * time.Millisecond)
-			frames := lab.take()
+			var frames [][]byte
+			if c.tun {
+				settleCount(e.tun.count, 60*time.Millisecond)
+				frames = e.tun.take()
+			} else {
+				lab.settle(60 * time.Millisecond)
+				frames = lab.take()
+			}
 			if flood {
 				// the kernel answers the injected SYN-ACKs with RSTs of its own: only SYNs are probes
 				var syn [][]byte
@@ -401,7 +716,13 @@ func e2eComponent(r *hx.Run) {
 			} else {
 				var views []string
 				for _, f := range frames {
-					if v, ok := frameView(c.kind, f); ok {
+					v, ok := "", false
+					if c.tun {
+						v, ok = rawView(c.kind, f)
+					} else {
+						v, ok = frameView(c.kind, f)
+					}
+					if ok {
 						views = append(views, v)
 					}
 				}
@@ -420,16 +741,39 @@ func e2eComponent(r *hx.Run) {
 		if strings.Count(c.ports, ",") >= 200 {
 			class += "/chunks"
 		}
+		if c.split == 3 {
+			class += "/split"
+		}
+		if c.tun {
+			class += "/tun"
+			r.Count("link:tun")
+		}
+		if c.oneCPU {
+			class += "/cpu1"
+			r.Count("cpus:1")
+		}
 		r.Count("cmd:" + strings.Join(c.sub, " "))
 		r.Case(class, "gen", c.kind, c.src, c.ports, c.ports, c.excl, cache, gw, "S", obs)
 	}
 }
 
+// settleCount waits until count() has not changed for `quiet`
+func settleCount(count func() int, quiet time.Duration) {
+	last := count()
+	t := time.Now()
+	for time.Since(t) < quiet {
+		time.Sleep(5 * time.Millisecond)
+		if c := count(); c != last {
+			last, t = c, time.Now()
+		}
+	}
+}
+
 // runSXWithReplies runs sx and, from its first TCP probe on, keeps injecting the SYN-ACK reply to that
 // probe (10 000 per second) until the process has ended
-func runSXWithReplies(lab *netlab, stdin []byte, args []string) sxRun {
+func runSXWithReplies(lab *netlab, oneCPU bool, stdin []byte, args []string) sxRun {
 	resc := make(chan sxRun, 1)
-	go func() { resc <- runSX(stdin, 90*time.Second, args...) }()
+	go func() { resc <- runSXOn(oneCPU, stdin, 90*time.Second, args...) }()
 	var first []byte
 	deadline := time.Now().Add(10 * time.Second)
 	for first == nil && time.Now().Before(deadline) {
@@ -552,7 +896,7 @@ func runAppScan(c e2eCase, args []string, targets []uint32, stdin []byte) string
 		}
 	}
 	args = append(args, "-w", "7", "-t", "1s")
-	res := runSX(stdin, 90*time.Second, args...)
+	res := runSXOn(c.oneCPU, stdin, 90*time.Second, args...)
 	time.Sleep(30 * time.Millisecond)
 	if res.timedOut {
 		return "TIMEOUT"
